@@ -307,4 +307,57 @@ theorem dinv_run (sv : Nat) (sched : List (Nat × Op)) (hs : ∀ x ∈ sched, x.
     obtain ⟨t, op⟩ := x
     exact ih (fun y hy => hs y (List.mem_cons_of_mem _ hy)) _ (dinv_step sv s t op (hs (t, op) (List.mem_cons_self ..)) h)
 
+/-! ### B3. a string that was scanned before it was published (newScannedImportedString, runtime.go toValue ≤ 16 bytes) -/
+
+/-- the state right after `newScannedImportedString`: `u` and the flag are set by the constructing goroutine before
+the value is handed to anyone (no access history yet) -/
+def initScanned (sv : Nat) : MState := { initM with flag := true, uval := sv }
+
+/-- nobody ever scans again: every thread sees the flag set, `u` is only read -/
+structure PInv (sv : Nat) (s : MState) : Prop where
+  nr : s.raced = false
+  nb : s.bad = false
+  fl : s.flag = true
+  uv : s.uval = sv
+  rd : ∀ a ∈ s.histU, a.wr = false
+  pcs : ∀ t, ((s.thr t).pc = .idle ∨ (s.thr t).pc = .f0 ∨ (s.thr t).pc = .p0 ∨ (s.thr t).pc = .f6 ∨ (s.thr t).pc = .p2 ∨
+         (((s.thr t).pc = .f1 ∨ (s.thr t).pc = .p1) ∧ (s.thr t).r = true))
+
+theorem conflicts_false_of_reads (h : List Acc) (t : Nat) (K : Nat → Bool) (hr : ∀ a ∈ h, a.wr = false) :
+    conflicts h t K false = false := by
+  unfold conflicts
+  apply Bool.eq_false_iff.mpr
+  intro hc
+  rw [List.any_eq_true] at hc
+  obtain ⟨a, ha, hp⟩ := hc
+  simp [hr a ha] at hp
+
+theorem pinv_step (sv : Nat) (s : MState) (t : Nat) (op : Op) (hop : op ≠ .raw) (h : PInv sv s) :
+    PInv sv (stepM onceCfg sv s t op) := by
+  obtain ⟨nr, nb, fl, uv, rd, pcs⟩ := h
+  have hcf := conflicts_false_of_reads s.histU t (s.thr t).K rd
+  have hp := pcs t
+  cases hpc : (s.thr t).pc
+  case idle =>
+    cases op <;> simp only [stepM, hpc, setThr, onceCfg] <;> first | (exact absurd rfl hop) | (constructor <;> dsimp only <;> grind)
+  case f0 => simp only [stepM, hpc, setThr, onceCfg, loadFlag, join_def]; constructor <;> dsimp only <;> grind
+  case p0 => simp only [stepM, hpc, setThr, onceCfg, loadFlag, join_def]; constructor <;> dsimp only <;> grind
+  case f1 => simp only [stepM, hpc, setThr, onceCfg]; constructor <;> dsimp only <;> grind
+  case p1 => simp only [stepM, hpc, setThr, onceCfg]; constructor <;> dsimp only <;> grind
+  case f6 => simp only [stepM, hpc, setThr, onceCfg, readU, learn_def, hcf]; constructor <;> dsimp only <;> grind
+  case p2 => simp only [stepM, hpc, setThr, onceCfg, readU, learn_def, hcf]; constructor <;> dsimp only <;> grind
+  all_goals (exfalso; simp [hpc] at hp)
+
+theorem pinv_run (sv : Nat) (sched : List (Nat × Op)) (hs : ∀ x ∈ sched, x.2 ≠ .raw) :
+    ∀ s, PInv sv s → PInv sv (runM onceCfg sv s sched) := by
+  induction sched with
+  | nil => intro s h; exact h
+  | cons x rest ih =>
+    intro s h
+    obtain ⟨t, op⟩ := x
+    exact ih (fun y hy => hs y (List.mem_cons_of_mem _ hy)) _ (pinv_step sv s t op (hs (t, op) (List.mem_cons_self ..)) h)
+
+theorem pinv_init (sv : Nat) : PInv sv (initScanned sv) := by
+  constructor <;> simp [initScanned, initM, initThread]
+
 end GojaModel.C16
